@@ -489,6 +489,13 @@ def main(ck):
   def compare_one(xg, nrm, o, shape, pnt, vec, tolx, what, desc, worst, info=None):
     """Per-geom function against the reference."""
     if o is None:
+      if xg >= 0 and shape.typ not in ('mesh', 'plane'):
+        # grazing from far away: the hit/no-hit decision is b^2 - a*c with |o|^2/r^2 cancellation. If the engine's hit point
+        # lies on the surface within that conditioning the ray does graze the geom: don't-care.
+        ph = pnt + xg * vec
+        cond = (1 + float(np.linalg.norm(pnt - shape.pos)) / max(shape.minsize(), 1e-300)) ** 2
+        if abs(gr.sdf(shape, ph)) <= 1e-15 * cond * (shape.scale() + float(np.linalg.norm(pnt - shape.pos))) + 1e-9 * shape.scale():
+          return
       if xg >= 0:
         raise Violation('%s: engine x=%.17g, reference: no intersection%s' % (what, xg, desc()), bucket='geom-phantom')
       if np.any(nrm != 0):
